@@ -137,6 +137,14 @@ def work(item, opts):
         if t % 2 == 1:      # re-configuration path: an instance built with another configuration, then set_config_parameters
             other, _k = universe.make_config(rng, name, perturbed=True, max_cycles=7)
             b = cls(Cfg(**other))
+            if t % 4 == 3 or item["n_runs"] <= 2:
+                # the way HyperTuner drives an optimizer: configure, run, re-configure, run again
+                other_spec = universe.make_spec(rng, kind=rng.choice(["continuous", "mixed"]))
+                tasks.register_run(rid + "-pre", other_spec)
+                try:
+                    optimize_plain(b, tasks.build_task(other_spec, rid + "-pre"), mode="serial", workers=2)
+                finally:
+                    tasks.unregister_run(rid + "-pre")
             b.set_config_parameters(json.loads(json.dumps(cfg)))
             cb = canon(vars(b))
             armed = {k for k in ca if k not in cb or dumps(ca[k]) != dumps(cb[k])}
